@@ -375,6 +375,12 @@ def gen_forall(rng, w, scope, depth=1, numeric=True, equality=True, **kw):
             lf = gen_leaf(rng, w, sc2, numeric=numeric, equality=False, must_mention=v if rng.random() < 0.8 else None, **kw)
             if lf:
                 body.append(lf)
+    if equality and scope and rng.random() < 0.2:
+        # the quantified variable compared with a parameter: "every other object", "only ?x itself" - sometimes as the whole body
+        x = rng.choice([p for p, _ in scope])
+        e = ["=", v, x] if rng.random() < 0.5 else ["=", x, v]
+        e = e if rng.random() < 0.4 else ["not", e]
+        body = [e] if rng.random() < 0.3 else body + [e]
     if not body:
         return None
     return ["forall", [v, "-", ty], [rng.choice(["and", "or"])] + body]
